@@ -126,9 +126,12 @@ Print Assumptions C12_crash_not_recoverable_own_commit_echo.
 Theorem C12_crash_not_recoverable_merge_pending_commit : refuted_at "merge_pending_commit" 1.
 Proof. exact crash_not_recoverable_merge_pending_commit. Qed.
 Print Assumptions C12_crash_not_recoverable_merge_pending_commit.
-Theorem C12_crash_not_recoverable_process_welcome : refuted_at "process_welcome" 3.
-Proof. exact crash_not_recoverable_process_welcome. Qed.
-Print Assumptions C12_crash_not_recoverable_process_welcome.
+(* process_welcome: since the fix (the welcome is stored BEFORE the record that marks its wrapper processed) a death after
+   any unit is recovered by processing the wrapper again; before it, index 3 failed ("welcome record missing") *)
+Theorem C12_crash_recoverable_process_welcome :
+  smallest_failing_k "process_welcome" = None /\ forallb (recovers "process_welcome") (seq 0 8) = true.
+Proof. exact crash_recoverable_process_welcome_units. Qed.
+Print Assumptions C12_crash_recoverable_process_welcome.
 Theorem C12_crash_not_recoverable_accept_welcome : refuted_at "accept_welcome" 12.
 Proof. exact crash_not_recoverable_accept_welcome. Qed.
 Print Assumptions C12_crash_not_recoverable_accept_welcome.
